@@ -352,7 +352,7 @@ static jv *strlist_at(int off, int n)
 {
   jv *a = j_mkarr();
   const char *s = K->str + off;
-  for (int i = 0; i < n; i++) { j_push(a, j_mkstr(s)); s += strlen(s) + 1; }
+  for (int i = 0; i < n; i++) { char *e = j_pct_encode(s); j_push(a, j_mkstr(e)); free(e); s += strlen(s) + 1; }
   return a;
 }
 
@@ -420,7 +420,7 @@ static jv *obs_key(const char *key, jv *call, long r, jv *extra)
   if (!strcmp(key, "pmask")) return siglist(K->proc[0].mask, 64);
   if (!strcmp(key, "pdisp")) { jv *a = j_mkarr(); for (int s = 1; s <= 64; s++) if (K->proc[0].disp[s]) { jv *t = j_mkarr(); j_push(t, j_mkint(s)); j_push(t, j_mkint(K->proc[0].disp[s])); j_push(a, t); } return a; }
   if (!strcmp(key, "pcwd")) return j_mkstr(K->str + K->proc[0].cwd);
-  if (!strcmp(key, "penv")) { jv *a = j_mkarr(); for (char **e = environ; e && *e; e++) j_push(a, j_mkstr(*e)); return a; }
+  if (!strcmp(key, "penv")) { jv *a = j_mkarr(); for (char **e = environ; e && *e; e++) { char *x = j_pct_encode(*e); j_push(a, j_mkstr(x)); free(x); } return a; }
   /* child-at-exec projections */
   int p = child_of(h);
   if (p < 0) return j_mkstr("nochild");
@@ -485,7 +485,7 @@ static const char **strarr(jv *a)
 {
   if (!a || a->t != J_ARR) return NULL;
   const char **v = calloc((size_t) a->n + 1, sizeof(char *));
-  for (int i = 0; i < a->n; i++) v[i] = a->a[i]->t == J_STR ? keep(a->a[i]->s) : NULL;
+  for (int i = 0; i < a->n; i++) v[i] = a->a[i]->t == J_STR ? j_pct_decode((char *) keep(a->a[i]->s)) : NULL;
   return v;
 }
 
